@@ -25,7 +25,7 @@ From Coq Require Import List String Arith Bool.
 Import ListNotations.
 From MVGen Require Import Tables_gen JsTables_gen JsGates_gen.
 From MV Require Import Base.MvBytes.
-From MV Require Js.PrintModel Js.PrintSpec Js.PrintGen Js.PrintProofs Js.PrintGroup Json.JsonModel Json.JsonSpec Json.JsonProofs
+From MV Require Js.PrintModel Js.PrintSpec Js.PrintGen Js.PrintProofs Js.PrintGroup Js.RewriteModel Js.RewritePipe Js.RewritePipeProofs Json.JsonModel Json.JsonSpec Json.JsonProofs
   Xml.XmlModel Xml.XmlEscape Svg.PathSep Html.HtmlAttr Html.HtmlAttrProofs Css.CssBox Css.CssColor Css.CssColorProofs.
 
 Section Js.
@@ -36,7 +36,13 @@ Theorem js_second_pass_stable : forall e p, print T_gen p (strip T_gen p e) = pr
 Proof. apply PrintProofs.strip_print_stable. vm_compute. reflexivity. Qed.
 Theorem js_rewrites_stay_parser_shaped : forall s, In s js_group_sites -> gsite_ok T_gen s = true.
 Proof. apply forallb_forall. vm_compute. reflexivity. Qed.
+(* with the on-the-fly rewrites: whatever js.Minify writes for an expression of the rewrite fragment derives, in the
+   grammar, the tree it was written from *)
+Theorem js_rewritten_output_derivable : forall fuel e l p t, wf l e -> RewritePipe.rw T_gen fuel p e = Some t ->
+  D (Nat.min l p) (RewriteModel.print_rw T_gen fuel p e) (RewritePipe.deconst t).
+Proof. exact RewritePipeProofs.pipeline_output_parses_back_gen. Qed.
 End Js.
+Print Assumptions js_rewritten_output_derivable.
 Print Assumptions js_output_derivable.
 Print Assumptions js_second_pass_stable.
 Print Assumptions js_rewrites_stay_parser_shaped.
